@@ -40,6 +40,21 @@ func runC03(c *Ctx) {
 					uses = true
 				}
 			}
+			// … or ranges over a string and looks its runes up in a []string table
+			if rs, ok := n.(*ast.RangeStmt); ok {
+				if t := rinfo.TypeOf(rs.X); t != nil && isStringType(t) && rs.Value != nil {
+					ast.Inspect(rs.Body, func(m ast.Node) bool {
+						if ix, ok := m.(*ast.IndexExpr); ok {
+							if xt := rinfo.TypeOf(ix.X); xt != nil {
+								if sl, ok := xt.Underlying().(*types.Slice); ok && isStringType(sl.Elem()) {
+									uses = true
+								}
+							}
+						}
+						return true
+					})
+				}
+			}
 			return true
 		})
 		if uses {
